@@ -143,7 +143,8 @@ PDU* PDU::release_inner_pdu() {
 
 PDU::serialization_type PDU::serialize() {
     vector<uint8_t> buffer(size());
-    serialize(&buffer[0], static_cast<uint32_t>(buffer.size()));
+    // Don't form a reference to the first element of an empty vector
+    serialize(buffer.empty() ? 0 : &buffer[0], static_cast<uint32_t>(buffer.size()));
     return buffer;
 }
 
